@@ -511,10 +511,29 @@ class FuncInfo:
             self._muts = muts
         return self._muts
 
+    def _module_aliases(self):
+        """Names bound by `import x [as y]` at module level and not rebound in this function."""
+        al = getattr(self, '_mod_aliases', None)
+        if al is None:
+            al = set()
+            for n in self.mod.tree.body:
+                if isinstance(n, ast.Import):
+                    for a in n.names:
+                        al.add((a.asname or a.name).split('.')[0])
+            for n in ast.walk(self.fn):
+                if isinstance(n, ast.Name) and isinstance(n.ctx, (ast.Store, ast.Del)) and n.id in al:
+                    al.discard(n.id)
+                elif isinstance(n, ast.arg) and n.arg in al:
+                    al.discard(n.arg)
+            self._mod_aliases = al
+        return al
+
     def _mutated_in_place(self, name):
         """Statements that mutate the object bound to `name` in place
         (subscript/attribute stores, augmented stores, mutating methods, out=)."""
         out = []
+        if name in self._module_aliases():
+            return out      # np.append(...) / np.sort(...) are functions of a module, not methods of an object
         for s in self._mutation_sites().get(name, []):
             plain = False
             if isinstance(s, ast.Assign):
